@@ -2,21 +2,56 @@
 import re
 from lib.facts import find, walk, is_node, path_of, render, render_pat, strip_refs, last_seg
 from lib import absint as A
-from rules.c01 import params_of_type, loop_bindings_over_field
+
+
+def params_of_type(it, type_rx):
+    """names of the parameters of a fn/method item whose declared type matches type_rx (a role is a POSITION + TYPE in the signature, never a spelling)"""
+    out = []
+    for inp in (it.get("sig") or {}).get("inputs", []):
+        if inp and inp[0] != "self" and is_node(inp[0]) and re.search(type_rx, (inp[1] or "").replace(" ", "")):
+            out += [b[1] for b in find(inp[0], "pident")]
+    return out
+
+
+def _loop_source(e):
+    """`&x`, `x.iter()`, `x.iter().enumerate()`, `x.clone()` -> x  (the collection a loop walks)"""
+    while is_node(e):
+        if e[0] == "ref":
+            e = e[2]
+        elif e[0] == "paren":
+            e = e[1]
+        elif e[0] == "mcall" and e[2] in ("iter", "iter_mut", "into_iter", "enumerate", "clone", "borrow", "as_ref") and not e[4]:
+            e = e[1]
+        else:
+            break
+    return e
+
+
+def loop_bindings_over_field(body, owners, field):
+    """every `for PAT in <owner>.<field>` (owner one of the given locals; borrowed / .iter()'d forms included)"""
+    out = []
+    for f in find(body, "for"):
+        src = _loop_source(f[2])
+        if is_node(src) and src[0] == "field" and src[2] == field and path_of(_loop_source(src[1])) in owners:
+            out.append(f)
+    return out
 
 EXPLANATION = (
-    "Decides structural clauses of C18 from the syntax tree of the join routine. (R1) routing: each table operator token compiles the join struct of its own name and each struct passes its "
-    "own JoinMode to compile_table_join, operands in (lhs, rhs) order. (R2) mode table: from the arms of `match mode` inside the row loop of build_joined_table and the trailing unmatched-"
-    "right block, which row classes a mode emits - every matching pair (merge_rows with the matched right row), the unmatched left rows (merge_rows with the empty right side, under "
-    "`matched.is_empty()`), the unmatched right rows, or left rows only (semi: under a non-empty match set, anti: under an empty one) - equals the relational-algebra definition of that "
-    "mode; matched right rows are marked in every mode that later emits the unmatched ones. (R3) the match predicate is the conjunction (`all`) over ALL commonly named columns of cell "
-    "equality, each side read from its own table, column and row; the common columns are collected for every left column name found among the right names, with no early exit. "
-    "(R4) optional kinds: right-only columns become optional exactly in LeftOuter / FullOuter, left-only (non-shared) columns exactly in RightOuter / FullOuter; semi / anti joins keep "
-    "the left columns only. (R5) row selection: the table access kernels copy, for every column, exactly the addressed rows in order (scalar: row ix-1; index vector: output row k = source "
-    "row ix[k]-1; logical mask: flagged rows packed in order) - kernel normal forms. Not decided: the multiset of rows itself (values), duplicate column names."
+    "Decides structural clauses of C18 by evaluating the join routine symbolically, once per JoinMode (lib/absint.py: the two table parameters are the roles L / R by position and type, the "
+    "JoinMode parameter is bound to one variant; private helpers, closures, iterator pipelines and mode predicates are followed; every container has an identity and a log of what is put into "
+    "it under which path condition and loop nest). (R1) routing: each table operator token compiles the join struct of its own name and each struct passes its own JoinMode on, operands in "
+    "(lhs, rhs) order by provenance from the Term. (R2) mode table: which row classes reach the output row list (the list whose length is the `rows` of the result table) in each mode - every "
+    "matching pair (a row built from the left row and a row of the match set, or of the right rows that satisfy the predicate), the unmatched left rows (no right row, under an empty match set), "
+    "the unmatched right rows (loop over all right rows skipping the marked ones), or left rows only (semi: under a non-empty match set, anti: under an empty one) - equals the "
+    "relational-algebra definition of that mode; the match set is refilled for every left row from ALL right rows; matched right rows are marked in every mode that later emits the unmatched ones. "
+    "(R3) the match predicate is the conjunction (`all`, `!any(!=)` or the early-return loop) over ALL shared column pairs of cell equality, each side read from its own table, column and row; "
+    "the shared columns are collected once for every column name present on both sides, with no early exit. (R4) optional kinds: right-only columns become optional exactly in LeftOuter / "
+    "FullOuter, left-only (non-shared) columns exactly in RightOuter / FullOuter; semi / anti joins keep the left columns only. (R5) row selection: the table access kernels copy, for every "
+    "column, exactly the addressed rows in order (scalar: row ix-1; index vector: output row k = source row ix[k]-1; logical mask: flagged rows packed in order) - kernel normal forms. "
+    "Not decided: the multiset of rows itself (values), the inside of the row builders, duplicate column names."
 )
-TECHNIQUE = ("guard-context analysis of the join routine's syntax tree: emission table per JoinMode (push sites of the output row list with their guards and arguments), predicate shape of "
-             "rows_match, column-discovery loop, optional-kind mode sets; routing tables token -> struct -> mode")
+TECHNIQUE = ("role interpreter over the syntax tree of the join routine (abstract evaluation per JoinMode with helper inlining, constant propagation of the mode, iterator pipelines as loops, "
+             "guard clauses as facts): emission table per JoinMode, predicate normal form, column-discovery loop, optional-kind mode sets; routing tables token -> struct -> mode")
 
 WANT = {"Inner": {"pairs"}, "LeftOuter": {"pairs", "unmatched_lhs"}, "RightOuter": {"pairs", "unmatched_rhs"}, "FullOuter": {"pairs", "unmatched_lhs", "unmatched_rhs"},
         "LeftSemi": {"semi"}, "LeftAnti": {"anti"}}
@@ -211,6 +246,21 @@ class ModeRun:
                     # `if p { push }` and `if !p { continue } push` state the same fact: p with its polarity is the predicate
                     c = c if pol else ("not", c)
                     self.matchsets[e["obj"]] = {"pred": c, "lrow": lrow, "rrow": v, "left": ll[-1], "right": v[2], "conds": A.flat_conds(e["ctx"]), "alloc": I.objs[e["obj"]]["loops"]}
+        # ... or no list at all: a flag `some right row matched` set in the loop over the right rows under the predicate (declared per left row)
+        for e in I.events:
+            for c, pol in A.flat_conds(e["ctx"]):
+                if c[0] != "exists" or c[1] not in self.right_loops or ("flag", c[1]) in self.matchsets:
+                    continue
+                lid = c[1]
+                ll = [l for l in (I.loops[lid]["outer"] or ()) if l in self.left_loops]
+                if not ll:
+                    continue
+                lrow = ("elem", I.loops[ll[-1]]["src"], ll[-1])
+                rrow = ("elem", I.loops[lid]["src"], lid)
+                for c2, pol2 in A.flat_conds(c[2]):
+                    if self.is_predicate(c2, lrow, rrow):
+                        self.matchsets[("flag", lid)] = {"pred": c2 if pol2 else ("not", c2), "lrow": lrow, "rrow": rrow, "left": ll[-1], "right": lid,
+                                                         "conds": A.flat_conds(c[2]), "alloc": (ll[-1],)}
         # the marks: a list of `false`, one per right row
         self.marks = {oid for oid, o in I.objs.items() if o["kind"] == "filled" and o["init"] and o["init"][0] == ("bool", False) and o["init"][1] == ("field", R, "rows")}
 
@@ -237,6 +287,8 @@ class ModeRun:
             em = A.emptiness(c, pol)
             if em and em[0][0] == "obj" and em[0][1] in self.matchsets:
                 emp = em[1]
+            if c[0] == "exists" and ("flag", c[1]) in self.matchsets:
+                emp = not pol
         return emp
 
     def classify(self, item):
